@@ -476,6 +476,16 @@ class StandardBaseContext(Context,
 
         """
         f_cache = {}
+        def fresh(value):
+            # a new object rounded to the present precision; the cached
+            # value itself is never handed out (the caller may modify
+            # what it gets), and tuples and lists are handled by element
+            if isinstance(value, (tuple, list)):
+                return type(value)(fresh(v) for v in value)
+            try:
+                return +value
+            except TypeError:
+                return value
         def f_cached(*args, **kwargs):
             if kwargs:
                 key = args, tuple(kwargs.items())
@@ -485,10 +495,10 @@ class StandardBaseContext(Context,
             if key in f_cache:
                 cprec, cvalue = f_cache[key]
                 if cprec >= prec:
-                    return +cvalue
+                    return fresh(cvalue)
             value = f(*args, **kwargs)
             f_cache[key] = (prec, value)
-            return value
+            return fresh(value)
         f_cached.__name__ = f.__name__
         f_cached.__doc__ = f.__doc__
         return f_cached
